@@ -9,8 +9,12 @@ use crate::util::*;
 use crate::{guard, Ctx};
 use serde_json::{json, Value};
 use std::sync::atomic::{AtomicUsize, Ordering};
+use epserde::deser::{Deserialize, Flags, MemCase};
+use epserde::ser::Serialize;
+use epserde::utils::AlignedCursor;
+use mem_dbg::{MemSize, SizeFlags};
 use sux::bits::{AtomicBitVec, BitVec};
-use sux::traits::{BitCount, BitLength};
+use sux::traits::{BitCount, RankHinted, SelectHinted, SelectZeroHinted};
 
 enum BV {
     None,
@@ -18,6 +22,10 @@ enum BV {
     Boxed(BitVec<Box<[usize]>>),
     Atomic(AtomicBitVec<Vec<AtomicUsize>>),
     AtomicBoxed(AtomicBitVec<Box<[AtomicUsize]>>),
+    /// read-only instance over a leaked aligned buffer (deserialize_eps)
+    RoEps(BitVec<&'static [usize]>),
+    /// read-only instance over a memory-mapped file
+    RoMmap(MemCase<BitVec<&'static [usize]>>),
 }
 
 fn atomic_words(a: &[AtomicUsize]) -> Vec<usize> {
@@ -40,6 +48,8 @@ impl BV {
                 b.len(),
                 atomic_words(AsRef::<[AtomicUsize]>::as_ref(b)),
             ),
+            BV::RoEps(b) => ("ro", b.len(), AsRef::<[usize]>::as_ref(b).to_vec()),
+            BV::RoMmap(b) => ("ro", b.len(), AsRef::<[usize]>::as_ref(&**b).to_vec()),
         };
         json!({"form": form, "len": len, "nw": words.len(), "store": positions(&words)})
     }
@@ -64,9 +74,54 @@ macro_rules! reader {
         match $bv {
             BV::Vec($b) => guard(|| $body),
             BV::Boxed($b) => guard(|| $body),
+            BV::RoEps($b) => guard(|| $body),
+            BV::RoMmap(m) => {
+                let $b = &**m;
+                guard(|| $body)
+            }
             _ => Err("na".to_string()),
         }
     };
+}
+
+/// Serialises `b` and loads it back in the way `mode` says (C15). The loaded
+/// instance replaces the structure under test.
+macro_rules! reload {
+    ($b:expr, $mode:expr, $ty:ty, $wrap:expr) => {{
+        let b = $b;
+        match $mode {
+            "full" => {
+                let mut cur = <AlignedCursor>::new();
+                b.serialize(&mut cur).unwrap();
+                cur.set_position(0);
+                $wrap(<$ty>::deserialize_full(&mut cur).unwrap())
+            }
+            "eps" => {
+                let mut cur = <AlignedCursor>::new();
+                b.serialize(&mut cur).unwrap();
+                let cur: &'static mut AlignedCursor = Box::leak(Box::new(cur));
+                BV::RoEps(<$ty>::deserialize_eps(cur.as_bytes()).unwrap())
+            }
+            _ => {
+                let dir = std::env::temp_dir();
+                let path = dir.join(format!("sux-verif-bitvec-{}.bin", std::process::id()));
+                {
+                    let mut f = std::io::BufWriter::new(std::fs::File::create(&path).unwrap());
+                    b.serialize(&mut f).unwrap();
+                }
+                let m = <$ty>::mmap(&path, Flags::empty()).unwrap();
+                let _ = std::fs::remove_file(&path);
+                BV::RoMmap(m)
+            }
+        }
+    }};
+}
+
+/// positions of the ones, obtained bit by bit through `get` (used only to
+/// call the unsafe hinted methods inside their preconditions; the
+/// specification re-derives both the precondition and the hint)
+fn naive_ones<B: AsRef<[usize]>>(b: &BitVec<B>) -> Vec<usize> {
+    (0..b.len()).filter(|&i| b.get(i)).collect()
 }
 
 macro_rules! writer {
@@ -206,7 +261,7 @@ pub fn run(ep: &Value, ctx: &mut Ctx) {
             }
             "count_ones" => reader!(&bv, |b| b.count_ones()).map(|r| json!({"res": r})),
             "par_count_ones" => {
-                reader!(&bv, |b| b.par_count_ones()).map(|r| json!({"res": r}))
+                writer!(&bv, |b| b.par_count_ones()).map(|r| json!({"res": r}))
             }
             "count_zeros" => reader!(&bv, |b| b.count_zeros()).map(|r| json!({"res": r})),
             "display" => reader!(&bv, |b| format!("{}", b)).map(|r| {
@@ -284,6 +339,65 @@ pub fn run(ep: &Value, ctx: &mut Ctx) {
                 json!({"olen": o.len(), "onw": w.len(), "ostore": positions(w), "eq": o == *b})
             })
             .map(|r| json!({"res": r})),
+            // ---------------- space, reload
+            "mem_size" => reader!(&bv, |b| b.mem_size(SizeFlags::default())).map(|r| json!({"res": r})),
+            "a_mem_size" => atomic!(&bv, |b| b.mem_size(SizeFlags::default())).map(|r| json!({"res": r})),
+            "capacity" => match &bv {
+                BV::Vec(b) => guard(|| b.capacity()).map(|r| json!({"res": r})),
+                _ => Err("na".into()),
+            },
+            "reload" => {
+                let mode = op["mode"].as_str().unwrap();
+                let r = match &bv {
+                    BV::Vec(b) => guard(|| reload!(b, mode, BitVec<Vec<usize>>, BV::Vec)),
+                    BV::Boxed(b) => guard(|| reload!(b, mode, BitVec<Box<[usize]>>, BV::Boxed)),
+                    _ => Err("na".to_string()),
+                };
+                r.map(|n| {
+                    bv = n;
+                    json!({})
+                })
+            }
+            // ---------------- hinted rank / select (unsafe: called only inside
+            // their preconditions; otherwise "na")
+            "rank_hinted" => {
+                let (pos, hp) = (get_usize(op, "pos"), get_usize(op, "hp"));
+                reader!(&bv, |b| {
+                    if pos < b.len() && hp.saturating_mul(64) <= pos {
+                        let hr = naive_ones(b).iter().filter(|&&i| i < hp * 64).count();
+                        Some(json!({"hr": hr, "res": unsafe { b.rank_hinted(pos, hp, hr) }}))
+                    } else {
+                        None
+                    }
+                })
+                .and_then(|r| r.ok_or("na".to_string()))
+            }
+            "select_hinted" | "select_zero_hinted" => {
+                let (r, hp) = (get_usize(op, "r"), get_usize(op, "hp"));
+                let zero = name == "select_zero_hinted";
+                reader!(&bv, |b| {
+                    let ones = naive_ones(b);
+                    let ones_before = ones.iter().filter(|&&i| i < hp).count();
+                    let (hr, cnt) = if zero {
+                        (hp.saturating_sub(ones_before), b.len() - ones.len())
+                    } else {
+                        (ones_before, ones.len())
+                    };
+                    if hp < b.len() && hr <= r && r < cnt {
+                        let res = unsafe {
+                            if zero {
+                                b.select_zero_hinted(r, hp, hr)
+                            } else {
+                                b.select_hinted(r, hp, hr)
+                            }
+                        };
+                        Some(json!({"hr": hr, "res": res}))
+                    } else {
+                        None
+                    }
+                })
+                .and_then(|r| r.ok_or("na".to_string()))
+            }
             // ---------------- conversions
             "into" => {
                 let to = op["to"].as_str().unwrap();
